@@ -16,8 +16,13 @@ use crate::{
 
 mod client;
 mod codec;
+mod netgen;
 mod server;
 mod stream;
+
+pub fn split_rtu_public(d: &[u8]) -> Option<Vec<(u8, Vec<u8>)>> {
+    stream::split_rtu_clean(d, true)
+}
 
 pub fn generate(out: &mut Out, prop: &str, thorough: bool, seed: u64) {
     let mut rng = Rng::new(seed ^ prop_salt(prop));
@@ -35,9 +40,17 @@ pub fn generate(out: &mut Out, prop: &str, thorough: bool, seed: u64) {
         "C11" => stream::gen_c11(out, &mut rng, thorough),
         "C12" => client::gen_c12(out, &mut rng, thorough),
         "C13" => client::gen_c13(out, &mut rng, thorough),
-        "C14" => server::gen_c14(out, &mut rng, thorough),
+        "C14" => {
+            server::gen_c14(out, &mut rng, thorough);
+            netgen::gen_c14_accept(out, &mut rng, thorough)
+        }
         "C15" => client::gen_c15(out, &mut rng, thorough),
-        "C16" => client::gen_c16(out, &mut rng, thorough),
+        "C16" => {
+            client::gen_c16(out, &mut rng, thorough);
+            netgen::gen_c16_sync(out, &mut rng, thorough)
+        }
+        "C17" => netgen::gen_c17(out, &mut rng, thorough),
+        "C18" => netgen::gen_c18(out, &mut rng, thorough),
         "C19" => codec::gen_c19(out, &mut rng, thorough),
         "C20" => client::gen_c20(out, &mut rng, thorough),
         _ => panic!("no generator for {prop}"),
@@ -66,9 +79,17 @@ pub fn monitor_line(out: &mut Out, line: &str) {
         "C11" => stream::mon_c11(out, &l, &r),
         "C12" => client::mon_c12(out, &l, &r),
         "C13" => client::mon_c13(out, &l, &r),
-        "C14" => server::mon_c14(out, &l, &r),
+        "C14" => {
+            server::mon_c14(out, &l, &r);
+            netgen::mon_c14_accept(out, &l, &r)
+        }
         "C15" => client::mon_c15(out, &l, &r),
-        "C16" => client::mon_c16(out, &l, &r),
+        "C16" => {
+            client::mon_c16(out, &l, &r);
+            netgen::mon_c16_sync(out, &l, &r)
+        }
+        "C17" => netgen::mon_c17(out, &l, &r),
+        "C18" => netgen::mon_c18(out, &l, &r),
         "C19" => codec::mon_c19(out, &l, &r),
         "C20" => client::mon_c20(out, &l, &r),
         _ => {}
